@@ -24,9 +24,9 @@ def run(ctx, R):
     R.explanation = 'Inverse relation of accrual and decay steps, and their application counts in the window accumulators.'
     R.not_decided = ['row arithmetic of diff_iloc / diff_loc (which rows decay)', 'vanished-group masking values']
     declare(R, folds.RULES, RULES, FLOORS)
-    folds.check_mirror(ctx, R)
-    folds.check_accrue_decay(ctx, R)
-    folds.check_decay_unreachable(ctx, R)
-    folds.check_fold_derive(ctx, R, steps=('on_new', 'on_old'))
-    folds.check_window_fifo(ctx, R)
-    folds.check_agg_table(ctx, R)
+    R.run(folds.check_mirror, ctx, R)
+    R.run(folds.check_accrue_decay, ctx, R)
+    R.run(folds.check_decay_unreachable, ctx, R)
+    R.run(folds.check_fold_derive, ctx, R, steps=('on_new', 'on_old'))
+    R.run(folds.check_window_fifo, ctx, R)
+    R.run(folds.check_agg_table, ctx, R)
